@@ -32,12 +32,38 @@ def render_graph(files):
     return fs
 
 
+def segs(name):
+    n = name[:-5] if name.endswith(".scss") else name
+    return n.split("/")
+
+
+NOFAULT = {"at": 0, "kind": "find"}
+
+
+def events_for(files, res, case, fault=None):
+    """hook events of one compilation as a run of Trace_Loader events"""
+    full = {f: files.get(f, []) for f in FILES}
+    evs = [{"ev": "Begin", "files": full, "devs": [], "case": case, "fault": fault or NOFAULT}]
+    if res.get("status") in ("ok", "err"):
+        for e in res.get("events") or []:
+            e = dict(e)
+            e["name"] = segs(e["name"])
+            evs.append(e)
+    evs.append({"ev": "End", "result": classify_result(res)})
+    return evs
+
+
 def classify_result(res):
     st = res.get("status")
     if st == "ok":
         return "ok"
     if st == "err":
-        if res.get("kind") == "ImportLoop":
+        msg = res.get("err") or ""
+        if "injected lookup fault" in msg or "injected read fault" in msg:
+            return "err"
+        # a loop met inside a load-css'ed body is re-wrapped by the mixin call (transform.rs MixinCall)
+        if res.get("kind") == "ImportLoop" or msg.startswith("Module loop: this module is already being loaded") \
+                or msg.startswith("This file is already being loaded"):
             return "loop"
         return "err:" + (res.get("err") or "").split("\n")[0][:60]
     if st == "abort":
@@ -85,6 +111,10 @@ class LoaderEngine(VectorEngine):
             ctx.traces += 1
             if obs != exp:
                 mism.append((i, inp, obs, exp, r))
+        # every recorded execution (hook events) is validated step by step against the machine
+        step = max(1, len(vecs) // self.trace_runs.get(ctx.tier, 1000))
+        runs = [(i, events_for(vecs[i]["files"], res[cases[i]["id"]], i)) for i in range(0, len(vecs), step)]
+        self.validate_runs(ctx, runs, lambda i: (self.strip(vecs[i]), cases[i], res[cases[i]["id"]]), tag)
         if not mism:
             return
         # run the mismatching graphs under every combination of named deviations
@@ -92,15 +122,16 @@ class LoaderEngine(VectorEngine):
         progs = ctx.work + f"/{tag}.progs.ndjson"
         with open(progs, "w") as f:
             for (i, inp, obs, exp, r) in mism:
-                f.write(jdump({"files": inp["files"]}) + "\n")
+                f.write(jdump({"files": inp["files"], "fault": inp.get("fault", NOFAULT)}) + "\n")
         er = ctx.mc("MC_Loader", f"MC_Loader_explain{nfiles}.cfg", env={"PROGS": progs}, workers=6)
         pred = {}
         for ev in ctx.vectors(er):
             devs = ev["dev"] if isinstance(ev["dev"], list) else []
-            pred.setdefault(jdump(ev["files"]), []).append((sorted(devs), self.expect_of(ev)))
+            pred.setdefault(jdump([ev["files"], ev.get("fault", NOFAULT)]), []).append((sorted(devs), self.expect_of(ev)))
         open_devs = set(ctx.open_devs())
         for (i, inp, obs, exp, r) in mism:
-            cands = [d for (d, e) in pred.get(jdump(inp["files"]), []) if d and set(d) <= open_devs and e == obs]
+            pk = jdump([inp["files"], inp.get("fault", NOFAULT)])
+            cands = [d for (d, e) in pred.get(pk, []) if d and set(d) <= open_devs and e == obs]
             if cands:
                 best = min(cands, key=len)
                 for d in best:
@@ -108,10 +139,53 @@ class LoaderEngine(VectorEngine):
                 continue
             ctx.violation(cases[i]["id"], dict(input=inp, rendered=cases[i], expected=exp, actual=obs,
                                                spec_operator=self.spec_op, raw={k: r.get(k) for k in ("status", "kind", "err", "stack_overflow")},
-                                               predictions=pred.get(jdump(inp["files"]))))
+                                               predictions=pred.get(pk)))
+
+    trace_runs = {"quick": 1200, "thorough": 20000}
+
+    def validate_runs(self, ctx, runs, lookup, tag):
+        def on_reject(cid, j):
+            inp, case, r = lookup(cid)
+            ctx.violation(f"{tag}-trace#{cid}", dict(input=inp, rendered=case, flow="B",
+                          expected=f"a behaviour of Loader.tla (Trace_Loader rejected event {j} of the run)",
+                          actual=events_for(inp["files"], r, cid)))
+        ctx.validate_cases("Trace_Loader", "Trace_Loader.cfg", runs, on_reject=on_reject, tag=tag.replace("/", "_"))
+
+    def flow_b(self, ctx, n):
+        rng = ctx.rng
+        inputs = []
+        for _ in range(n):
+            nfiles = rng.randint(2, 4)
+            fl = FILES[:nfiles]
+            g = {f: [] for f in fl}
+            for _ in range(rng.randint(2, 6)):
+                f = rng.choice(fl)
+                g[f].append({"kind": rng.choice(self.kinds), "target": rng.choice(fl), "sp": rng.choice(["plain", "dot", "dd"])})
+            for f in fl:   # @use/@forward first
+                g[f].sort(key=lambda s: 0 if s["kind"] in ("use", "forward") else 1)
+            inputs.append({"files": g})
+        cases = []
+        for i, inp in enumerate(inputs):
+            c = self.render(inp); c["id"] = f"rnd#{i}"; cases.append(c)
+        res = ctx.execute(cases, **self.exec_kw)
+        runs = []
+        for i, inp in enumerate(inputs):
+            runs.append((i, events_for(inp["files"], res[cases[i]["id"]], i)))
+            ctx.note_case(self.key(inp), sample=self.sample(inp, cases[i], self.project(inp, res[cases[i]["id"]])) if i < 1 else None)
+        self.validate_runs(ctx, runs, lambda i: (inputs[i], cases[i], res[cases[i]["id"]]), "rnd")
+
+    kinds = ["use", "forward", "import", "loadcss"]
+    trace = ("Trace_Loader", "Trace_Loader.cfg")
+    random_n = {"quick": 600, "thorough": 10000}
 
     def replay(self, ctx, rep):
         c = dict(rep["rendered"]); c["id"] = "replay"
+        if rep.get("flow") == "B":
+            r = ctx.execute([c], **self.exec_kw)["replay"]
+            bad = []
+            ctx.validate_cases("Trace_Loader", "Trace_Loader.cfg", [(0, events_for(rep["input"]["files"], r, 0))],
+                               on_reject=lambda cid, j: bad.append(j), tag="replay")
+            return not bad
         r = ctx.execute([c], **self.exec_kw)["replay"]
         obs = self.project(rep["input"], r)
         print("replay observed:", jdump(obs), "expected:", jdump(rep["expected"]))
@@ -136,3 +210,113 @@ class C02(LoaderEngine):
 
     def expect_of(self, vec):
         return vec["expect"]["result"]
+
+
+class C03(LoaderEngine):
+    prop = "C03"
+    kinds = ["use", "forward"]
+    rule = ("@use/@forward graphs built by MC_Loader.tla (<= MaxStmts statements in total over 3 files x 3 URL spellings; thorough: 4 statements); every module "
+            "emits a marker rule; non-trivial = at least one load statement; distinct = distinct graph. Compared: outcome class and, for successful runs, "
+            "how often each file's marker appears in the CSS (= how often the Loader machine executed it). InitStart/CacheHit hook events of every run are "
+            "validated against the machine by Trace_Loader.tla, whose invariant InitOnce is evaluated after every event. Flow B: random use/forward graphs over 4 files.")
+    assumptions = C02.assumptions + ["module execution is observed through one marker rule per file"]
+    mc_runs = {
+        "quick": [("MC_Loader", "MC_Loader_C03_q.cfg", {})],
+        "thorough": [("MC_Loader", "MC_Loader_C03_q.cfg", {}), ("MC_Loader", "MC_Loader_C03_t.cfg", {"timeout": 3000})],
+    }
+
+    def project(self, inp, res):
+        cls = classify_result(res)
+        if cls != "ok":
+            return {"result": cls}
+        out = res.get("out") or ""
+        return {"result": "ok", "execs": {f: len(re.findall(r"^\.m-%s \{" % f, out, re.M)) for f in inp["files"]}}
+
+    def expect_of(self, vec):
+        e = vec["expect"]
+        if e["result"] != "ok":
+            return {"result": e["result"]}
+        return {"result": "ok", "execs": e["execs"]}
+
+
+class C39(LoaderEngine):
+    prop = "C39"
+    level = "fault_enumeration"
+    rule = ("Graphs of MC_Loader.tla (<= 2 load statements, thorough 3, all four load kinds) x a fault armed on EVERY loader call index 1..3*MaxStmts x "
+            "{lookup error, read error}, enumerated by TLC; the Loader machine predicts which armed faults fire (a read fault only on the call that finds the file), "
+            "that the compilation then ends with an error, and the number of loader calls of the fault-free run. non-trivial = the fault fires; distinct = distinct "
+            "(graph, fault). After every faulted compilation the same graph is compiled again in the same process with a working loader and must give the fault-free output.")
+    assumptions = ["faults are injected by the executor's in-memory loader: find_file returns Err(LoadError::Input) or a File whose Read fails",
+                   "generated files are named <t>.scss, so @import makes 3 loader calls and the other kinds 1 (Loader!NCalls); the fault-free call count is cross-checked against the call log"]
+    mc_runs = {
+        "quick": [("MC_Loader", "MC_Loader_C39_q.cfg", {"workers": 6})],
+        "thorough": [("MC_Loader", "MC_Loader_C39_q.cfg", {}), ("MC_Loader", "MC_Loader_C39_t.cfg", {"timeout": 3000})],
+    }
+    random_n = {"quick": 0, "thorough": 0}
+
+    def strip(self, vec):
+        return {"files": vec["files"], "fault": vec["fault"]}
+
+    def key(self, inp):
+        return [inp["files"], inp["fault"]]
+
+    def nontrivial(self, vec):
+        return vec["expect"]["result"] == "err"
+
+    def project(self, inp, res):
+        cls = classify_result(res)
+        o = {"result": cls}
+        if cls == "ok":
+            o["calls"] = len(res.get("calls") or [])
+        if res.get("status") == "err" and cls == "err" and res.get("out"):
+            o["partial_css"] = True
+        return o
+
+    def expect_of(self, vec):
+        e = vec["expect"]
+        o = {"result": e["result"]}
+        if e["result"] == "ok":
+            o["calls"] = e["calls"]
+        return o
+
+    def render(self, inp):
+        c = dict(files=render_graph(inp["files"]), entry="r.scss", trace=True, want_calls=True)
+        if inp["fault"]["at"] > 0:
+            c["faults"] = [inp["fault"]]
+            # re-run fault-free in the same process, unless the fault-free run itself dies (open finding of C02)
+            c["rerun_clean"] = self.baseline_status.get(jdump(inp["files"])) in ("ok", "err")
+        return c
+
+    baseline_status = {}
+
+    def flow_a(self, ctx, vecs, tag):
+        ctx.add_background("C02")     # the load-css lock defect (C02) shows in these runs but is no loader-failure defect
+        # phase 1: the fault-free runs (they are also the baseline of the second clause)
+        base_v = [v for v in vecs if v["fault"]["at"] == 0]
+        super().flow_a(ctx, base_v, tag + "-base")
+        bv, bc, br = self.last_results
+        base = {}
+        for i, v in enumerate(bv):
+            r = br[bc[i]["id"]]
+            base[jdump(v["files"])] = r
+            self.baseline_status[jdump(v["files"])] = r.get("status")
+        # phase 2: every armed fault
+        fv = [v for v in vecs if v["fault"]["at"] > 0]
+        super().flow_a(ctx, fv, tag + "-fault")
+        vecs, cases, res = self.last_results
+        for i, v in enumerate(vecs):
+            r = res[cases[i]["id"]]
+            clean = r.get("clean")
+            b = base.get(jdump(v["files"]))
+            if clean is None or b is None:
+                continue
+            if (clean.get("status"), clean.get("out"), (clean.get("err") or "")[:80]) != (b.get("status"), b.get("out"), (b.get("err") or "")[:80]):
+                ctx.violation(cases[i]["id"] + "-clean", dict(input=self.strip(v), rendered=cases[i], flow="clean",
+                              expected={"status": b.get("status"), "out": b.get("out")},
+                              actual={"status": clean.get("status"), "out": clean.get("out"), "err": clean.get("err")}))
+
+    def validate_runs(self, ctx, runs, lookup, tag):
+        # rebuild the runs with the fault of each case in the Begin event
+        vecs, cases, res = self.last_results
+        runs = [(i, events_for(vecs[i]["files"], res[cases[i]["id"]], i, vecs[i]["fault"])) for (i, _) in runs]
+        super().validate_runs(ctx, runs, lookup, tag)
